@@ -1255,10 +1255,8 @@ pub(crate) fn rename_sheet_in_node(node: &mut Node, sheet_index: u32, new_name: 
                 }
             }
         }
-        Node::WrongRangeKind { sheet_name, .. } => {
-            if sheet_name.is_some() {
-                *sheet_name = Some(new_name.to_owned());
-            }
+        Node::WrongRangeKind { .. } => {
+            // A range on a sheet that does not exist is not a reference to the renamed sheet
         }
 
         // Go next level
